@@ -124,8 +124,15 @@ pub fn run_exec(op: &str, args: &[Sx]) -> Result<String, String> {
                 format!("err {} {} {}", name, line, hex(&e.to_string()))
             }
         }),
-        "run" => {
-            let stdin = args.get(1).ok_or("stdin")?.string()?;
+        "run" | "runbytes" => {
+            // runbytes: the input is given as raw bytes (hex), possibly not valid UTF-8
+            let stdin_bytes: Vec<u8> = if op == "runbytes" {
+                let a = args.get(1).ok_or("stdin")?.atom()?;
+                let h = a.trim_start_matches('#');
+                (0..h.len() / 2).map(|i| u8::from_str_radix(&h[2 * i..2 * i + 2], 16).unwrap_or(0)).collect()
+            } else {
+                args.get(1).ok_or("stdin")?.string()?.into_bytes()
+            };
             let wb = opt_usize(args.get(2).ok_or("wbudget")?)?;
             let rf = opt_usize(args.get(3).ok_or("rfault")?)?;
             let program = match parser::parse(&src) {
@@ -133,7 +140,7 @@ pub fn run_exec(op: &str, args: &[Sx]) -> Result<String, String> {
                 Err(e) => return Ok(format!("parse-error {}", hex(&e.to_string()))),
             };
             let mut w = FaultyWriter { buf: Vec::new(), budget: wb };
-            let mut r = FaultyReader { data: stdin.into_bytes(), pos: 0, fault: rf, requested_after_fault: 0 };
+            let mut r = FaultyReader { data: stdin_bytes, pos: 0, fault: rf, requested_after_fault: 0 };
             let res = rrss::exec::exec_using(&mut r, &mut w, &program);
             let status = match &res {
                 Ok(()) => "ok".to_string(),
